@@ -171,7 +171,7 @@ func c19Families(thorough bool) []*engine.IFamily {
 			return r
 		}}
 	inst := &engine.IFamily{Name: "instants", Chunks: chunks,
-		Rule: "every whole second of a dense week (2024-02-26..2024-03-03, includes Feb 29); for every year 1..9999 the first and last second of every month and of 29 February; non-trivial: all (each exercises the textual form)",
+		Rule: "every whole second of a dense week (2024-02-26..2024-03-03, includes Feb 29) in four locations; every hour of that week in every zone offset from -14:00 to +14:00 in quarter hours; for every year 1..9999 the first and last second of every month and of 29 February; non-trivial: all (each exercises the textual form)",
 		Run: func(chunk int) engine.IResult {
 			var r engine.IResult
 			// the same instant expressed in other locations (a time.Time carries one) is the same instant
@@ -208,6 +208,19 @@ func c19Families(thorough bool) []*engine.IFamily {
 			per := (week + chunks - 1) / chunks
 			for s := chunk * per; s < (chunk+1)*per && s < week; s++ {
 				check(start.Add(time.Duration(s) * time.Second))
+			}
+			// every zone offset of the clock (-14:00 .. +14:00 in quarter hours) for every hour of the dense week
+			if chunk == 0 {
+				for off := -14 * 4; off <= 14*4; off++ {
+					sign, ab := "+", off
+					if off < 0 {
+						sign, ab = "-", -off
+					}
+					z := time.FixedZone(fmt.Sprintf("%s%02d:%02d", sign, ab/4, (ab%4)*15), off*900)
+					for h := 0; h < 7*24; h++ {
+						check1(start.Add(time.Duration(h)*time.Hour+time.Duration(h%60)*time.Minute+time.Duration((7*h)%60)*time.Second).In(z), z.String())
+					}
+				}
 			}
 			for y := 1 + chunk; y <= 9999; y += chunks {
 				for m := time.January; m <= time.December; m++ {
